@@ -18,11 +18,11 @@ import (
 
 type C02Case struct {
 	SP       h.SPConfig `json:"sp"`
-	Kind     string     `json:"kind"`    // response | assertion | LogoutRequest | LogoutResponse
+	Kind     string     `json:"kind"`    // response | assertion | both | LogoutRequest | LogoutResponse ("both": the case's signature is on the Response, and the assertion carries a second, good signature by T2)
 	Signer   h.CertRef  `json:"signer"`  // key + window of "its own" certificate
 	KeyInfo  string     `json:"keyInfo"` // own | other | attacker | absent | empty
 	Embedded *h.CertRef `json:"embedded,omitempty"`
-	Tamper   string     `json:"tamper"` // none | content | digest | sigvalue
+	Tamper   string     `json:"tamper"` // none | content | digest | sigvalue | extra-ref-first | extra-ref-last
 	ClockPos string     `json:"clockPos"`
 	Method   string     `json:"method"`
 	C14N     string     `json:"c14n"`
@@ -100,6 +100,14 @@ func (c *C02Case) honoured() (bool, string) {
 	return true, ""
 }
 
+// bothWindow: validity window of the certificate that signs the assertion in kind "both".
+func (c *C02Case) bothWindow() string {
+	if h.K("T2").Cert[c.Signer.Window] == nil {
+		return "wide"
+	}
+	return c.Signer.Window
+}
+
 func methodFor(key string, i int) string {
 	if h.K(key).Kind == "ecdsa" {
 		return h.ECMethods[1+i%3]
@@ -109,14 +117,14 @@ func methodFor(key string, i int) string {
 
 func genC02(t *rapid.T) C02Case {
 	c := C02Case{SP: h.BaseSP()}
-	c.Kind = rapid.SampledFrom([]string{"response", "assertion", "LogoutRequest", "LogoutResponse"}).Draw(t, "kind")
+	c.Kind = rapid.SampledFrom([]string{"response", "assertion", "both", "LogoutRequest", "LogoutResponse"}).Draw(t, "kind")
 	c.Signer = h.CertRef{Key: rapid.SampledFrom([]string{"T1", "T1", "T2", "T3", "A"}).Draw(t, "signerKey"), Window: rapid.SampledFrom(h.Windows).Draw(t, "window")}
 	if (c.Signer.Key == "T1" || c.Signer.Key == "T2") && rapid.IntRange(0, 3).Draw(t, "skiCert") == 0 {
 		// renewed certificate on an unchanged key, both with a SubjectKeyIdentifier (as openssl makes them)
 		c.Signer.Window = rapid.SampledFrom([]string{"wide-ski", "wide-ski2"}).Draw(t, "skiWindow")
 	}
 	c.KeyInfo = rapid.SampledFrom([]string{"own", "own", "own", "other", "attacker", "absent", "absent", "empty"}).Draw(t, "keyInfo")
-	c.Tamper = rapid.SampledFrom([]string{"none", "none", "none", "none", "content", "digest", "sigvalue"}).Draw(t, "tamper")
+	c.Tamper = rapid.SampledFrom([]string{"none", "none", "none", "none", "none", "content", "digest", "sigvalue", "extra-ref-first", "extra-ref-last"}).Draw(t, "tamper")
 	c.ClockPos = rapid.SampledFrom(clockPositions).Draw(t, "clockPos")
 	c.Method = methodFor(c.Signer.Key, rapid.IntRange(0, 3).Draw(t, "method"))
 	c.C14N = rapid.SampledFrom(h.C14Ns).Draw(t, "c14n")
@@ -147,6 +155,12 @@ func genC02(t *rapid.T) C02Case {
 }
 
 func finishC02(c *C02Case, pick int, fail func(error)) {
+	if c.Kind == "both" {
+		// the assertion's own signature is good whenever the clock is inside the window: T2 with the same window, trusted
+		if o := (h.CertRef{Key: "T2", Window: c.bothWindow()}); !inStore(c.SP.Store, o) {
+			c.SP.Store = append(c.SP.Store, o)
+		}
+	}
 	c.SP.NowUnixNano = clockAt(c.Signer.Window, c.ClockPos).UnixNano()
 	switch c.KeyInfo {
 	case "own":
@@ -178,12 +192,20 @@ func finishC02(c *C02Case, pick int, fail func(error)) {
 	var root *etree.Element
 	var err error
 	switch c.Kind {
-	case "response", "assertion":
-		g := gridGenuine(c.SP, 1, map[string]string{"response": "response", "assertion": "assertions"}[c.Kind])
-		if c.Kind == "response" {
+	case "response", "assertion", "both":
+		g := gridGenuine(c.SP, 1, map[string]string{"response": "response", "assertion": "assertions", "both": "both"}[c.Kind])
+		switch c.Kind {
+		case "response":
 			g.RespSig = spec
-		} else {
+		case "assertion":
 			g.AsrtSig = []*h.SignSpec{spec}
+		case "both":
+			g.RespSig = spec
+			a := h.DefaultSign("T2")
+			a.Signer.Window = c.bothWindow()
+			e := a.Signer
+			a.Embed = &e
+			g.AsrtSig = []*h.SignSpec{a}
 		}
 		root, err = g.Tree()
 	default:
@@ -245,6 +267,32 @@ func tamper(root *etree.Element, kind, how string) {
 		if d := findFirst(root, "SignatureValue"); d != nil {
 			d.SetText(flipB64(d.Text()))
 		}
+	case "extra-ref-first", "extra-ref-last":
+		// a second ds:Reference (to something else) in the SignedInfo of the element's own signature: legal
+		// XML-DSig, and the signature no longer verifies because SignedInfo changed after signing
+		signed := root
+		if kind == "assertion" {
+			signed = findFirst(root, "Assertion")
+		}
+		for _, sg := range signed.ChildElements() {
+			if sg.Tag != "Signature" {
+				continue
+			}
+			si := findFirst(sg, "SignedInfo")
+			ref := findFirst(si, "Reference")
+			if si == nil || ref == nil {
+				continue
+			}
+			cp := ref.Copy()
+			cp.RemoveAttr("URI")
+			cp.CreateAttr("URI", "#_some_other_element")
+			if how == "extra-ref-first" {
+				si.InsertChildAt(ref.Index(), cp)
+			} else {
+				si.AddChild(cp)
+			}
+			break
+		}
 	}
 }
 
@@ -272,7 +320,7 @@ func judgeC02(c C02Case, newSP func() *saml2.SAMLServiceProvider) h.Outcome {
 	}
 	var rs []res
 	switch c.Kind {
-	case "response", "assertion":
+	case "response", "assertion", "both":
 		r, err := newSP().ValidateEncodedResponse(c.Encoded)
 		x := res{entry: "ValidateEncodedResponse", err: err}
 		if err == nil {
@@ -319,6 +367,11 @@ func judgeC02(c C02Case, newSP func() *saml2.SAMLServiceProvider) h.Outcome {
 			case "LogoutRequest", "LogoutResponse":
 				if !r.rootFlag {
 					o.Violation = h.V("flag-mismatch/"+c.Kind, "%s: signature honoured but SignatureValidated=false", r.entry)
+					return o
+				}
+			case "both":
+				if !r.rootFlag {
+					o.Violation = h.V("flag-mismatch/both", "%s: root flag false for a Response whose own signature must be honoured", r.entry)
 					return o
 				}
 			case "response":
@@ -443,8 +496,8 @@ func TestC02_Grid(t *testing.T) {
 		}
 	}
 	// attacker key, and tampering, at every kind
-	for _, kind := range []string{"response", "assertion", "LogoutRequest", "LogoutResponse"} {
-		for _, tm := range []string{"content", "digest", "sigvalue"} {
+	for _, kind := range []string{"response", "assertion", "both", "LogoutRequest", "LogoutResponse"} {
+		for _, tm := range []string{"content", "digest", "sigvalue", "extra-ref-first", "extra-ref-last", "none"} {
 			for _, ki := range []string{"own", "absent"} {
 				c := C02Case{SP: h.BaseSP(), Kind: kind, Signer: h.CertRef{Key: "T1", Window: "wide"}, KeyInfo: ki, Tamper: tm, ClockPos: "inside", Method: h.RSAMethods[1], C14N: h.C14Ns[0]}
 				c.SP.Store = []h.CertRef{c.Signer}
